@@ -42,12 +42,14 @@ pub struct SpecGen<'a> {
     names: Vec<String>,
     kinds: Vec<&'static str>, // per component: object enum map array prim alias allof union any
     pub features: Vec<String>,
+    /// allOf components whose own properties must not repeat a property of the objects they extend (one scope, D)
+    pending_allof: Vec<String>,
 }
 
 fn r(name: &str) -> Value { json!({"$ref": format!("#/components/schemas/{name}")}) }
 
 impl<'a> SpecGen<'a> {
-    pub fn new(rng: &'a mut Rng, opts: GenOpts) -> Self { SpecGen { rng, opts, names: vec![], kinds: vec![], features: vec![] } }
+    pub fn new(rng: &'a mut Rng, opts: GenOpts) -> Self { SpecGen { rng, opts, names: vec![], kinds: vec![], features: vec![], pending_allof: vec![] } }
 
     fn feat(&mut self, f: &str) { if !self.features.iter().any(|x| x == f) { self.features.push(f.to_string()); } }
 
@@ -197,6 +199,7 @@ impl<'a> SpecGen<'a> {
                 let mut o = self.object(1, false);
                 o.as_object_mut().unwrap().remove("type");
                 members.push(o);
+                self.pending_allof.push(name.to_string());
                 (json!({"allOf": members}), "allof")
             }
             18 => { self.feat("union_component"); (json!({"oneOf": [{"type": "string"}, {"type": "number"}]}), "union") }
@@ -336,6 +339,26 @@ impl<'a> SpecGen<'a> {
             let (s, kind) = self.component(&name);
             self.kinds[i] = kind;
             schemas.insert(name, s);
+        }
+        // the merged members of an allOf form one scope: an inline member does not repeat a name of an extended object
+        fn all_props(schemas: &Map<String, Value>, s: &Value, depth: usize, out: &mut Vec<String>) {
+            if depth > 8 { return; }
+            if let Some(rf) = s["$ref"].as_str() { if let Some(t) = schemas.get(rf.rsplit('/').next().unwrap_or("")) { all_props(schemas, t, depth + 1, out); } return; }
+            if let Some(p) = s["properties"].as_object() { out.extend(p.keys().cloned()); }
+            if let Some(a) = s["allOf"].as_array() { for m in a { all_props(schemas, m, depth + 1, out); } }
+        }
+        let fold = |s: &str| s.chars().filter(|c| c.is_ascii_alphanumeric()).collect::<String>().to_lowercase();
+        for n in self.pending_allof.clone() {
+            let Some(s) = schemas.get(&n).cloned() else { continue };
+            let mut inherited = vec![];
+            for m in s["allOf"].as_array().cloned().unwrap_or_default() { if m.get("$ref").is_some() { all_props(&schemas, &m, 0, &mut inherited); } }
+            if let Some(ms) = schemas.get_mut(&n).and_then(|x| x["allOf"].as_array_mut()) {
+                for m in ms {
+                    if let Some(p) = m.get_mut("properties").and_then(|p| p.as_object_mut()) { p.retain(|k, _| !inherited.iter().any(|i| fold(i) == fold(k))); }
+                    let keep: Vec<String> = m.get("properties").and_then(|p| p.as_object()).map(|p| p.keys().cloned().collect()).unwrap_or_default();
+                    if let Some(rq) = m.get_mut("required").and_then(|r| r.as_array_mut()) { rq.retain(|x| x.as_str().map(|x| keep.iter().any(|k| k == x)).unwrap_or(false)); }
+                }
+            }
         }
         // paths
         let templates: &[(&str, &[&str])] = &[
